@@ -36,6 +36,53 @@ def enc(v):
     raise TypeError(type(v))
 
 
+class RawText(bytes):
+    """TEXT whose bytes are not valid UTF-8: python cannot bind it as str"""
+
+
+def bind(sql, params):
+    """SQL and parameters ready for execute(): the placeholder of a RawText parameter becomes
+    CAST(? AS TEXT) and the bytes are bound as a blob (placeholders inside quoted text are skipped)."""
+    ps = [dec(p) for p in params]
+    if not any(isinstance(p, RawText) for p in ps):
+        return sql, ps
+    out = []
+    n = 0
+    quote = None
+    i = 0
+    while i < len(sql):
+        ch = sql[i]
+        i += 1
+        if quote:
+            out.append(ch)
+            if ch == quote:
+                quote = None
+            continue
+        if ch in "'\"`":
+            quote = ch
+            out.append(ch)
+            continue
+        if ch == "[":
+            quote = "]"
+            out.append(ch)
+            continue
+        if ch == "?":
+            j = i
+            while j < len(sql) and sql[j].isdigit():
+                j += 1
+            num = sql[i:j]
+            idx = int(num) - 1 if num else n
+            i = j
+            if idx < len(ps) and isinstance(ps[idx], RawText):
+                out.append("CAST(?%s AS TEXT)" % num)
+            else:
+                out.append("?" + num)
+            n += 1
+            continue
+        out.append(ch)
+    return "".join(out), [bytes(p) if isinstance(p, RawText) else p for p in ps]
+
+
 def dec(v):
     if v is None:
         return None
@@ -44,7 +91,11 @@ def dec(v):
     if "f" in v:
         return struct.unpack(">d", struct.pack(">Q", int(v["f"], 16)))[0]
     if "t" in v:
-        return base64.b64decode(v["t"]).decode("utf-8")
+        raw = base64.b64decode(v["t"])
+        try:
+            return raw.decode("utf-8")
+        except UnicodeDecodeError:
+            return RawText(raw)     # bound as CAST(? AS TEXT) by bind()
     if "b" in v:
         return base64.b64decode(v["b"])
     raise ValueError(v)
@@ -186,7 +237,7 @@ def handle(req):
     if op == "q":
         c, tr = getconn(req)
         try:
-            cur = c.execute(req["sql"], [dec(p) for p in req.get("params", [])])
+            cur = c.execute(*bind(req["sql"], req.get("params", [])))
             rows = rows_enc(cur)
             return {"rows": rows}
         finally:
@@ -197,7 +248,7 @@ def handle(req):
         try:
             out = []
             for ps in req["paramsets"]:
-                out.append(rows_enc(c.execute(req["sql"], [dec(p) for p in ps])))
+                out.append(rows_enc(c.execute(*bind(req["sql"], ps))))
             return {"results": out}
         finally:
             if tr:
@@ -232,7 +283,7 @@ def handle(req):
                 if isinstance(st, str):
                     c.execute(st)
                 else:
-                    c.execute(st[0], [dec(p) for p in st[1]])
+                    c.execute(*bind(st[0], st[1]))
             return {}
         finally:
             if tr:
